@@ -38,6 +38,12 @@ add('C20',
     'Lean 4 proof (K-buffer invariant by induction over rows, sorted-permutation uniqueness, CTE unrolling) + differential correspondence + reference one-liner oracle on SQLite',
     'DESIGN.md section 5 C20')
 
+add('C01',
+    'Lean 4 theorems: a verified compiler for the conjunctive fragment (atoms over variables and constants, repeated variables, several rules): for every rule and every database, the bag semantics of the emitted SELECT/FROM/WHERE equals the nested-loop denotation of the rule (compile_correct_partial, exact even in row order); UNION ALL of the rules adds multiplicities (rules_add); conjunction multiplies them (solve_append, conjunction_multiplies). The model compiler is tied to /repo on every run: for random conjunctive rules the SELECT text the real compiler emits, parsed back, must be literally CQ.compile (same FROM items, same WHERE equalities in order and orientation, same SELECT list), and SQLite must return CQ.denote on random tables with duplicate rows. Beyond that fragment (disjunction, arithmetic, comparison, assignment, in, lists, records, if-then-else, functional and injectible predicates, named arguments) the statement is not a theorem: it is decided by the executable reference semantics Sem.denote against the rows and column names of the real pipeline on SQLite over type-directed generated programs and shape templates.',
+    'Trusted: Lean kernel + standard axioms; partial: only the conjunctive fragment is proved, the rest is oracle; SQL text parser of the correspondence; Sem; SQLite 3.40.1. Known finding: unary minus directly before a call.',
+    'Lean 4 proof (verified mini-compiler, simulation between unification environments and the column map) + structural correspondence with the emitted SQL + reference-evaluator oracle on SQLite',
+    'DESIGN.md section 5 C01')
+
 SEM_TIE = ('Tie and oracle: type-directed generated programs (AST for the Lean reference evaluator Sem.denote, text for the real pipeline) run on every check; rows and column names from the `logica.py run` SQLite path are compared as multisets with Sem.denote; ')
 
 add('C02',
